@@ -345,3 +345,19 @@ Theorem C19_ks_secrets_are_the_callers : forall token s,
    (not_v2 token /\ is_obsolete token = true /\ s = token)).
 Proof. exact ks_secrets_spec. Qed.
 Print Assumptions C19_ks_secrets_are_the_callers.
+
+(* ... and, for single and for overlapping requests through the per-remote cached keep client: nothing sent
+   on behalf of a caller contains a listed secret, and each request bears "OAuth2 t" with t what SaltToken
+   returned for that caller's own token (spec of CKsGet / CKsPair; for a pair the secrets of both callers
+   are searched in what is sent for either) *)
+Theorem C19_spec_ksget_reflects : forall secrets token remote sent,
+  spec_ksget_k hmac_sha1_hex secrets token remote sent = true <->
+  ((forall s p, In s secrets -> In p (all_parts sent) -> ~ Occurs s (snd p)) /\
+   (forall q, In q sent -> exists t, snd (fst q) = "OAuth2 " ++ t /\ salt_token token remote = Salted t)).
+Proof. exact spec_ksget_reflects. Qed.
+Print Assumptions C19_spec_ksget_reflects.
+
+Theorem C19_ksget_model_meets_spec : forall token remote sent,
+  ksget_model_k hmac_sha1_hex token remote sent = true -> ks_auth_ok_k hmac_sha1_hex token remote sent = true.
+Proof. exact ksget_model_auth_ok. Qed.
+Print Assumptions C19_ksget_model_meets_spec.
